@@ -135,6 +135,8 @@ theorem fn_intersection_body : Gen.DenseOn.fn_intersection.body =
       (.seq (.setLoc "in_samples_2" (.call1 "list" (.loc "in_samples_2")))
         (.seq (.setLoc "out_samples" .emptyList) (.seq (.setLoc "last" .emptyList) (.seq sEarly interRest)))) := rfl
 
+theorem fn_intersection_isMethod : Gen.DenseOn.fn_intersection.isMethod = false := rfl
+
 theorem fn_intersection_params : Gen.DenseOn.fn_intersection.params = ["in_samples_1", "in_samples_2", "method"] := rfl
 
 
@@ -1141,4 +1143,457 @@ end tailbody
 
 end loop
 
+/-! ### the function -/
+
+section mirror2
+variable {β : Type} (f : α → α → β) (ne : β → β → Bool)
+
+/-- what `interOn` does after the main loop -/
+def tailSel (out : ASig β) (last : Last β) (l1 l2 : ASig α) : ASig β × Last β :=
+  match l1, l2 with
+  | _ :: _ :: _, (q2, x2) :: _ => tail1 f ne q2 x2 l1 out last
+  | (q1, x1) :: _, _ :: _ :: _ => tail2 f ne q1 x1 l2 out last
+  | _, _ => (out, last)
+
+theorem interOn_cons (p1 : Tm) (v1 : α) (t1 : ASig α) (p2 : Tm) (v2 : α) (t2 : ASig α) :
+    interOn f ne ((p1, v1) :: t1) ((p2, v2) :: t2) =
+      match onLoop f ne ((p1, v1) :: t1) ((p2, v2) :: t2) [] (if p1 == p2 then .item p1 (f v1 v2) else .nil) with
+      | .ok (out, last, l1, l2) => .ok ((tailSel f ne out last l1 l2).1, (tailSel f ne out last l1 l2).2, l1, l2)
+      | .error e => .error e := by
+  unfold interOn
+  dsimp only
+  cases hr : onLoop f ne ((p1, v1) :: t1) ((p2, v2) :: t2) [] (if p1 == p2 then .item p1 (f v1 v2) else .nil) with
+  | error e => rfl
+  | ok res =>
+      obtain ⟨out, last, l1, l2⟩ := res
+      simp only [ok_bind]
+      rcases l1 with _ | ⟨⟨q1, y1⟩, _ | ⟨b1, r1⟩⟩ <;> rcases l2 with _ | ⟨⟨q2, y2⟩, _ | ⟨b2, r2⟩⟩ <;> rfl
+
+end mirror2
+
+/-- the 4-tuple `intersection` returns, or the exception -/
+def encRes {β : Type} (encP : β → DV α) : Except PyErr (ASig β × Last β × ASig α × ASig α) → Except PyErr (DV α)
+  | .ok (out, last, r1, r2) => .ok (.list [encSigP encP out, encLast encP last, encSig r1, encSig r2])
+  | .error e => .error e
+
+section fn
+variable (call : Call α) (fuel : Nat)
+variable {β : Type} (encP : β → DV α) (f : α → α → β) (ne : β → β → Bool) (m : String)
+  (hcall : ∀ a b, call m [.val a, .val b] = .ok (encP (f a b)))
+  (hpay : ∀ x, toPayload (encP x) = .ok (encP x))
+  (hne : ∀ x y, cmpDV .ne (encP x) (encP y) = .ok (ne x y))
+  (hlist : ∀ l, call "list" [.list l] = .ok (.list l))
+  (hlen : ∀ l, call "len" [.list l] = .ok (.int l.length))
+include hcall hpay hne hlist hlen
+
+theorem lenGt_spec {env : Env α} (x : String) (l : ASig α) (hx : getLoc x env = .ok (encSig l))
+    (hn : getLoc "len" env = .error .key) :
+    evalE call env (.bin .gt (.call1 "len" (.loc x)) (.int 1)) = .ok (.bool (decide (1 < l.length))) := by
+  simp [evalE, hx, resolve_of_key hn, encSig, hlen, evalBin, isCmp, cmpDV, cmpInt, Except.map]
+  omega
+
+/-- `if len(in_samples_1) > 1: while … elif len(in_samples_2) > 1: while …` -/
+theorem tails_spec {env : Env α} {l1 l2 : ASig α} {x1 x2 : Tm × α} {out : ASig β} {last : Last β}
+    {R1 R2 : Except PyErr (DV α)} (h : Loc encP m env l1 l2 x1 x2 out last R1 R2) (hh1 : l1.head? = some x1)
+    (hh2 : l2.head? = some x2) (hf1 : l1.length < fuel) (hf2 : l2.length < fuel) :
+    ∃ env' l1' l2' x1' x2', exec call fuel sTails env = .ok (env', .none) ∧
+      Loc encP m env' l1' l2' x1' x2' (tailSel f ne out last l1 l2).1 (tailSel f ne out last l1 l2).2 R1 R2 := by
+  unfold sTails
+  rw [exec_ite_bool call fuel (lenGt_spec call encP f ne m hcall hpay hne hlist hlen "in_samples_1" l1 h.in1 h.rn)]
+  rcases l1 with _ | ⟨⟨q1, y1⟩, _ | ⟨b1, r1⟩⟩
+  · simp at hh1
+  · simp only [List.head?_cons, Option.some.injEq] at hh1
+    subst hh1
+    simp only [List.length_cons, List.length_nil, Nat.zero_add, Nat.lt_irrefl, decide_false, Bool.false_eq_true, ↓reduceIte]
+    rw [exec_ite_bool call fuel (lenGt_spec call encP f ne m hcall hpay hne hlist hlen "in_samples_2" l2 h.in2 h.rn)]
+    rcases l2 with _ | ⟨⟨q2, y2⟩, _ | ⟨b2, r2⟩⟩
+    · simp at hh2
+    · simp only [List.length_cons, List.length_nil, Nat.zero_add, Nat.lt_irrefl, decide_false, Bool.false_eq_true,
+        ↓reduceIte]
+      exact ⟨env, _, _, _, _, by rw [exec], h⟩
+    · simp only [List.head?_cons, Option.some.injEq] at hh2
+      subst hh2
+      have hd : decide (1 < ((q2, y2) :: b2 :: r2).length) = true := by simp
+      rw [hd]
+      simp only [↓reduceIte]
+      rw [exec_while]
+      obtain ⟨env', l2', x2', hw, hl⟩ := tailLoop2_spec encP m call fuel f ne hcall hpay hne q1 y1 fuel _ _ _ _ env hf2 h rfl
+      exact ⟨env', _, _, _, _, hw, hl⟩
+  · simp only [List.head?_cons, Option.some.injEq] at hh1
+    subst hh1
+    have hd : decide (1 < ((q1, y1) :: b1 :: r1).length) = true := by simp
+    rw [hd]
+    simp only [↓reduceIte]
+    rw [exec_while]
+    rcases l2 with _ | ⟨⟨q2, y2⟩, t2⟩
+    · simp at hh2
+    · simp only [List.head?_cons, Option.some.injEq] at hh2
+      subst hh2
+      obtain ⟨env', l1', x1', hw, hl⟩ := tailLoop1_spec encP m call fuel f ne hcall hpay hne q2 y2 fuel _ _ _ _ env hf1 h rfl
+      exact ⟨env', _, _, _, _, hw, hl⟩
+
+/-- the body of `intersection` after the early return, both operands non-empty -/
+theorem rest_spec (env : Env α) (p1 : Tm) (v1 : α) (t1 : ASig α) (p2 : Tm) (v2 : α) (t2 : ASig α)
+    (hfuel : ((p1, v1) :: t1).length + ((p2, v2) :: t2).length < fuel)
+    (hin1 : getLoc "in_samples_1" env = .ok (encSig ((p1, v1) :: t1)))
+    (hin2 : getLoc "in_samples_2" env = .ok (encSig ((p2, v2) :: t2)))
+    (hout : getLoc "out_samples" env = .ok (.list [])) (hlast : getLoc "last" env = .ok (.list []))
+    (hm : getLoc "method" env = .ok (.fn m)) (hrl : getLoc "list" env = .error .key)
+    (hrn : getLoc "len" env = .error .key) :
+    match interOn f ne ((p1, v1) :: t1) ((p2, v2) :: t2) with
+    | .ok (out, last, r1, r2) => ∃ env', exec call fuel interRest env =
+        .ok (env', .ret (.list [encSigP encP out, encLast encP last, encSig r1, encSig r2]))
+    | .error e => exec call fuel interRest env = .error e := by
+  have hp1 : exec call fuel (.setLoc P1 (.idx (.loc "in_samples_1") (.int 0))) env =
+      .ok (setLoc P1 (encSmp (p1, v1)) env, .none) :=
+    exec_setLoc call fuel (by simp [evalE, hin1, encSig, evalIdx_cons0])
+  have hp2 : exec call fuel (.setLoc P2 (.idx (.loc "in_samples_2") (.int 0))) (setLoc P1 (encSmp (p1, v1)) env) =
+      .ok (setLoc P2 (encSmp (p2, v2)) (setLoc P1 (encSmp (p1, v1)) env), .none) :=
+    exec_setLoc call fuel (by simp [evalE, hin2, encSig, evalIdx_cons0])
+  generalize henv6 : setLoc P2 (encSmp (p2, v2)) (setLoc P1 (encSmp (p1, v1)) env) = env6 at hp2
+  have h6 : Loc encP m env6 ((p1, v1) :: t1) ((p2, v2) :: t2) (p1, v1) (p2, v2) ([] : ASig β) .nil
+      (getLoc "remainder_samples_1" env6) (getLoc "remainder_samples_2" env6) := by
+    subst henv6
+    constructor
+    · simp [hin1]
+    · simp [hin2]
+    · simp [hout, encSigP]
+    · simp [hlast, encLast]
+    · simp
+    · simp
+    · simp [hm]
+    · rfl
+    · rfl
+    · simp [hrl]
+    · simp [hrn]
+  generalize getLoc "remainder_samples_1" env6 = R1 at h6
+  generalize getLoc "remainder_samples_2" env6 = R2 at h6
+  -- the initial `last`
+  obtain ⟨env7, hx7, h7⟩ : ∃ env7, exec call fuel sInitLast env6 = .ok (env7, .none) ∧
+      Loc encP m env7 ((p1, v1) :: t1) ((p2, v2) :: t2) (p1, v1) (p2, v2) ([] : ASig β)
+        (if p1 == p2 then .item p1 (f v1 v2) else .nil) R1 R2 := by
+    unfold sInitLast
+    rw [exec_ite_bool call fuel (evalE_aEq call h6.p1 h6.p2)]
+    cases hpp : (p1 == p2) with
+    | false =>
+        simp only [Bool.false_eq_true, ↓reduceIte]
+        exact ⟨env6, by rw [exec], h6⟩
+    | true =>
+        simp only [↓reduceIte]
+        have k1 : exec call fuel (.setLoc "out_val" (.call2 "method" (.idx (.loc P1) (.int 1)) (.idx (.loc P2) (.int 1)))) env6 =
+            .ok (setLoc "out_val" (encP (f v1 v2)) env6, .none) := by
+          apply exec_setLoc
+          simp [evalE, h6.p1, h6.p2, encSmp, evalIdx, pyIndex, resolve_of_getLoc h6.m, hcall]
+        have k2 : exec call fuel (.setLoc "last" (.list2 (.idx (.loc P1) (.int 0)) (.loc "out_val")))
+            (setLoc "out_val" (encP (f v1 v2)) env6) =
+            .ok (setLoc "last" (encLast encP (.item p1 (f v1 v2))) (setLoc "out_val" (encP (f v1 v2)) env6), .none) := by
+          apply exec_setLoc
+          simp [evalE, h6.p1, encSmp, evalIdx, pyIndex, mkList2, hpay, encLast]
+        refine ⟨_, ?_, (h6.set_other encP m "out_val" (encP (f v1 v2)) (by decide)).set_last encP m (.item p1 (f v1 v2))⟩
+        rw [exec_seq_ok call fuel k1, k2]
+  have hloop := loop_spec encP m call fuel f ne hcall hpay hne fuel _ _ _ _ _ _ env7 hfuel h7 rfl rfl
+  unfold interRest
+  rw [exec_seq_ok call fuel hp1, exec_seq_ok call fuel hp2, exec_seq_ok call fuel hx7, interOn_cons]
+  cases hr : onLoop f ne ((p1, v1) :: t1) ((p2, v2) :: t2) [] (if p1 == p2 then .item p1 (f v1 v2) else .nil) with
+  | error e =>
+      rw [hr] at hloop
+      exact exec_seq_err call fuel (by rw [exec_while]; exact hloop)
+  | ok res =>
+      obtain ⟨o, la, l1', l2'⟩ := res
+      rw [hr] at hloop
+      obtain ⟨env8, x1', x2', hw, h8, hh1, hh2, hle1, hle2⟩ := hloop
+      rw [exec_seq_ok call fuel (by rw [exec_while]; exact hw)]
+      have k9 : exec call fuel sRem1 env8 = .ok (setLoc "remainder_samples_1" (encSig l1') env8, .none) := by
+        apply exec_setLoc
+        simp [evalE, h8.in1, resolve_of_key h8.rl, encSig, hlist]
+      have h9 := h8.set_r1 encP m (encSig l1')
+      have k10 : exec call fuel sRem2 (setLoc "remainder_samples_1" (encSig l1') env8) =
+          .ok (setLoc "remainder_samples_2" (encSig l2') (setLoc "remainder_samples_1" (encSig l1') env8), .none) := by
+        apply exec_setLoc
+        simp [evalE, h8.in2, resolve_of_key h8.rl, encSig, hlist]
+      have h10 := h9.set_r2 encP m (encSig l2')
+      rw [exec_seq_ok call fuel k9, exec_seq_ok call fuel k10]
+      obtain ⟨env11, l1'', l2'', y1, y2, hx11, h11⟩ := tails_spec call fuel encP f ne m hcall hpay hne hlist hlen h10 hh1 hh2
+        (by simp only [List.length_cons] at hfuel hle1; omega) (by simp only [List.length_cons] at hfuel hle2; omega)
+      rw [exec_seq_ok call fuel hx11]
+      refine ⟨env11, ?_⟩
+      simp [sRet, exec, evalE, h11.out, h11.last, h11.r1, h11.r2]
+
+
+theorem run_intersection (s1 s2 : ASig α) (hfuel : s1.length + s2.length < fuel) :
+    runFn call fuel Gen.DenseOn.fn_intersection [encSig s1, encSig s2, .fn m] = encRes encP (interOn f ne s1 s2) := by
+  unfold runFn
+  rw [fn_intersection_isMethod, fn_intersection_params, fn_intersection_body]
+  simp only [Bool.false_eq_true, ↓reduceIte, List.length_cons, List.length_nil, List.zip_cons_cons, List.zip_nil_right,
+    ne_eq, not_true_eq_false]
+  generalize henv0 : ([("in_samples_1", encSig s1), ("in_samples_2", encSig s2), ("method", DV.fn m)] : Env α) = env0
+  have k1 : getLoc "in_samples_1" env0 = .ok (encSig s1) := by subst henv0; simp
+  have k2 : getLoc "in_samples_2" env0 = .ok (encSig s2) := by subst henv0; simp
+  have k3 : getLoc "method" env0 = .ok (.fn m) := by subst henv0; simp
+  have k4 : getLoc "list" env0 = .error .key := by subst henv0; simp
+  have k5 : getLoc "len" env0 = .error .key := by subst henv0; simp
+  have r1 : resolve env0 "list" = "list" := resolve_of_key k4
+  have e1 : exec call fuel (.setLoc "in_samples_1" (.call1 "list" (.loc "in_samples_1"))) env0 =
+      .ok (setLoc "in_samples_1" (encSig s1) env0, .none) :=
+    exec_setLoc call fuel (by simp [evalE, k1, r1, encSig, hlist])
+  have e2 : exec call fuel (.setLoc "in_samples_2" (.call1 "list" (.loc "in_samples_2")))
+      (setLoc "in_samples_1" (encSig s1) env0) =
+      .ok (setLoc "in_samples_2" (encSig s2) (setLoc "in_samples_1" (encSig s1) env0), .none) :=
+    exec_setLoc call fuel (by simp [evalE, k2, r1, encSig, hlist])
+  have e3 : exec call fuel (.setLoc "out_samples" .emptyList)
+      (setLoc "in_samples_2" (encSig s2) (setLoc "in_samples_1" (encSig s1) env0)) =
+      .ok (setLoc "out_samples" (.list []) (setLoc "in_samples_2" (encSig s2) (setLoc "in_samples_1" (encSig s1) env0)),
+        .none) :=
+    exec_setLoc call fuel (by simp [evalE])
+  have e4 : exec call fuel (.setLoc "last" .emptyList)
+      (setLoc "out_samples" (.list []) (setLoc "in_samples_2" (encSig s2) (setLoc "in_samples_1" (encSig s1) env0))) =
+      .ok (setLoc "last" (.list []) (setLoc "out_samples" (.list [])
+        (setLoc "in_samples_2" (encSig s2) (setLoc "in_samples_1" (encSig s1) env0))), .none) :=
+    exec_setLoc call fuel (by simp [evalE])
+  rw [exec_seq_ok call fuel e1, exec_seq_ok call fuel e2, exec_seq_ok call fuel e3, exec_seq_ok call fuel e4]
+  generalize henv4 : setLoc "last" (.list []) (setLoc "out_samples" (.list [])
+        (setLoc "in_samples_2" (encSig s2) (setLoc "in_samples_1" (encSig s1) env0))) = env4
+  have q1 : getLoc "in_samples_1" env4 = .ok (encSig s1) := by subst henv4; simp
+  have q2 : getLoc "in_samples_2" env4 = .ok (encSig s2) := by subst henv4; simp
+  have q3 : getLoc "method" env4 = .ok (.fn m) := by subst henv4; simp [k3]
+  have q4 : getLoc "out_samples" env4 = .ok (.list []) := by subst henv4; simp
+  have q5 : getLoc "last" env4 = .ok (.list []) := by subst henv4; simp
+  have q6 : getLoc "list" env4 = .error .key := by subst henv4; simp [k4]
+  have q7 : getLoc "len" env4 = .error .key := by subst henv4; simp [k5]
+  have hc : evalE call env4 (.or_ (.bin .eq (.call1 "len" (.loc "in_samples_1")) (.int 0))
+      (.bin .eq (.call1 "len" (.loc "in_samples_2")) (.int 0))) = .ok (.bool (s1.isEmpty || s2.isEmpty)) := by
+    have hnz : ∀ n : Nat, ¬ ((n : Int) + 1 = 0) := by intro n; omega
+    cases s1 <;> cases s2 <;>
+      simp [evalE, q1, q2, resolve_of_key q7, encSig, hlen, evalBin, isCmp, cmpDV, cmpInt, truthy, Except.map, hnz]
+  by_cases hemp : (s1.isEmpty || s2.isEmpty) = true
+  · have he : exec call fuel sEarly env4 = .ok (env4, .ret (.list [.list [], .list [], encSig s1, encSig s2])) := by
+      unfold sEarly
+      rw [exec_ite_bool call fuel hc]
+      simp [hemp, exec, evalE, q1, q2, q4, q5]
+    rw [exec_seq_ret call fuel he]
+    rcases s1 with _ | ⟨x1, t1⟩
+    · simp [interOn, encRes, encSigP, encLast]
+    · rcases s2 with _ | ⟨x2, t2⟩
+      · simp [interOn, encRes, encSigP, encLast]
+      · simp at hemp
+  · have he : exec call fuel sEarly env4 = .ok (env4, .none) := by
+      unfold sEarly
+      rw [exec_ite_bool call fuel hc]
+      simp [hemp, exec]
+    rw [exec_seq_ok call fuel he]
+    rcases s1 with _ | ⟨⟨p1, v1⟩, t1⟩
+    · simp at hemp
+    rcases s2 with _ | ⟨⟨p2, v2⟩, t2⟩
+    · simp at hemp
+    have hrest := rest_spec call fuel encP f ne m hcall hpay hne hlist hlen env4 p1 v1 t1 p2 v2 t2 hfuel q1 q2 q4 q5 q3 q6 q7
+    cases hr : interOn f ne ((p1, v1) :: t1) ((p2, v2) :: t2) with
+    | error e =>
+        rw [hr] at hrest
+        simp [hrest, encRes]
+    | ok res =>
+        obtain ⟨o, la, l1, l2⟩ := res
+        rw [hr] at hrest
+        obtain ⟨env', hex⟩ := hrest
+        simp [hex, encRes]
+
+end fn
+
 end Rtamt.Py.DnOn.GOnInter
+
+/-! ### main theorems -/
+
+namespace Rtamt.Py.DnOn
+open Rtamt Val Rtamt.Dense Rtamt.Dense.Alg Rtamt.Dense.AlgOn Rtamt.Py.DnOn.GOnInter
+
+set_option linter.unusedSectionVars false
+set_option linter.unusedVariables false
+set_option linter.unusedSimpArgs false
+
+variable {α : Type} [Val α]
+
+/-- The translated online `intersection` returns the 4-tuple `(out_samples, last, remainder_1, remainder_2)` of the mirror
+    `interOn f ne` - or raises what the mirror raises - for all inputs, as soon as `s1.length + s2.length < fuel`. -/
+theorem gen_on_intersection' (fuel k : Nat) {β : Type} (encP : β → DV α) (f : α → α → β) (ne : β → β → Bool) (m : String)
+    (hm : ∀ a b, callAt Gen.DenseOn.fns fuel (k + 1) m [.val a, .val b] = .ok (encP (f a b)))
+    (hpay : ∀ x, toPayload (encP x) = .ok (encP x)) (hne : ∀ x y, cmpDV .ne (encP x) (encP y) = .ok (ne x y))
+    (s1 s2 : ASig α) (hfuel : s1.length + s2.length < fuel) :
+    callAt Gen.DenseOn.fns fuel (k + 2) "intersection" [encSig s1, encSig s2, .fn m] =
+      GOnInter.encRes encP (interOn f ne s1 s2) := by
+  rw [callAt_fn _ _ _ _ Gen.DenseOn.fn_intersection _ rfl]
+  exact run_intersection (callAt Gen.DenseOn.fns fuel (k + 1)) fuel encP f ne m hm hpay hne
+    (fun l => by rw [callAt_builtin Gen.DenseOn.fns fuel (k + 1) "list" _ rfl]; simp [builtin])
+    (fun l => by rw [callAt_builtin Gen.DenseOn.fns fuel (k + 1) "len" _ rfl]; simp [builtin])
+    s1 s2 hfuel
+
+theorem gen_on_intersection (fuel k : Nat) : InterOnSpec α fuel k := by
+  intro β encP f ne m hcall hpay hne s1 s2 hfuel
+  have h := gen_on_intersection' fuel k encP f ne m hcall hpay hne s1 s2 (by omega)
+  cases hr : interOn f ne s1 s2 with
+  | error e => rw [hr] at h; exact h
+  | ok res =>
+      obtain ⟨o, la, l1, l2⟩ := res
+      rw [hr] at h
+      exact h
+
+theorem GOnInter.encRes_ok {β : Type} (encP : β → DV α) (out : ASig β) (last : Last β) (r1 r2 : ASig α) :
+    GOnInter.encRes encP (.ok (out, last, r1, r2)) =
+      .ok (.list [encSigP encP out, encLast encP last, encSig r1, encSig r2]) := rfl
+
+theorem GOnInter.encRes_error {β : Type} (encP : β → DV α) (e : PyErr) :
+    GOnInter.encRes encP (.error e : Except PyErr (ASig β × Last β × ASig α × ASig α)) = .error e := rfl
+
+theorem gen_on_intersection_ok (fuel k : Nat) {β : Type} (encP : β → DV α) (f : α → α → β) (ne : β → β → Bool) (m : String)
+    (hm : ∀ a b, callAt Gen.DenseOn.fns fuel (k + 1) m [.val a, .val b] = .ok (encP (f a b)))
+    (hpay : ∀ x, toPayload (encP x) = .ok (encP x)) (hne : ∀ x y, cmpDV .ne (encP x) (encP y) = .ok (ne x y))
+    (s1 s2 : ASig α) (hfuel : s1.length + s2.length < fuel) (out : ASig β) (last : Last β) (r1 r2 : ASig α)
+    (ho : interOn f ne s1 s2 = .ok (out, last, r1, r2)) :
+    callAt Gen.DenseOn.fns fuel (k + 2) "intersection" [encSig s1, encSig s2, .fn m] =
+      .ok (.list [encSigP encP out, encLast encP last, encSig r1, encSig r2]) := by
+  have h := gen_on_intersection' fuel k encP f ne m hm hpay hne s1 s2 hfuel
+  rw [ho] at h
+  exact h
+
+theorem gen_on_intersection_error (fuel k : Nat) {β : Type} (encP : β → DV α) (f : α → α → β) (ne : β → β → Bool)
+    (m : String) (hm : ∀ a b, callAt Gen.DenseOn.fns fuel (k + 1) m [.val a, .val b] = .ok (encP (f a b)))
+    (hpay : ∀ x, toPayload (encP x) = .ok (encP x)) (hne : ∀ x y, cmpDV .ne (encP x) (encP y) = .ok (ne x y))
+    (s1 s2 : ASig α) (hfuel : s1.length + s2.length < fuel) (e : PyErr) (ho : interOn f ne s1 s2 = .error e) :
+    callAt Gen.DenseOn.fns fuel (k + 2) "intersection" [encSig s1, encSig s2, .fn m] = .error e := by
+  have h := gen_on_intersection' fuel k encP f ne m hm hpay hne s1 s2 hfuel
+  rw [ho] at h
+  exact h
+
+/-! ### the methods handed to `intersection` -/
+
+section methods
+variable (fuel k : Nat) (a b : α)
+
+theorem gen_on_disjunction :
+    callAt Gen.DenseOn.fns fuel (k + 1) "disjunction" [.val a, .val b] = .ok (.val (pmax a b) : DV α) := by
+  rw [callAt_fn _ _ _ _ Gen.DenseOn.fn_disjunction _ rfl]
+  simp [runFn, Gen.DenseOn.fn_disjunction, exec, evalE, getLoc, resolve, List.lookup,
+    callAt_builtin Gen.DenseOn.fns fuel k "max" _ rfl, builtin, toVal, isTimeLike]
+
+theorem gen_on_conjunction :
+    callAt Gen.DenseOn.fns fuel (k + 1) "conjunction" [.val a, .val b] = .ok (.val (pmin a b) : DV α) := by
+  rw [callAt_fn _ _ _ _ Gen.DenseOn.fn_conjunction _ rfl]
+  simp [runFn, Gen.DenseOn.fn_conjunction, exec, evalE, getLoc, resolve, List.lookup,
+    callAt_builtin Gen.DenseOn.fns fuel k "min" _ rfl, builtin, toVal, isTimeLike]
+
+theorem gen_on_implication :
+    callAt Gen.DenseOn.fns fuel (k + 1) "implication" [.val a, .val b] = .ok (.val (pmax (Val.neg a) b) : DV α) := by
+  rw [callAt_fn _ _ _ _ Gen.DenseOn.fn_implication _ rfl]
+  simp [runFn, Gen.DenseOn.fn_implication, exec, evalE, evalNeg, getLoc, resolve, List.lookup,
+    callAt_builtin Gen.DenseOn.fns fuel k "max" _ rfl, builtin, toVal, isTimeLike]
+
+theorem gen_on_xor :
+    callAt Gen.DenseOn.fns fuel (k + 1) "xor" [.val a, .val b] = .ok (.val (Val.abs (Val.sub a b)) : DV α) := by
+  rw [callAt_fn _ _ _ _ Gen.DenseOn.fn_xor _ rfl]
+  simp [runFn, Gen.DenseOn.fn_xor, exec, evalE, evalBin, isCmp, arith, isTimeLike, isValLike, getLoc, resolve, List.lookup,
+    callAt_builtin Gen.DenseOn.fns fuel k "abs" _ rfl, builtin, toVal]
+
+theorem gen_on_iff :
+    callAt Gen.DenseOn.fns fuel (k + 1) "iff" [.val a, .val b] = .ok (.val (Val.neg (Val.abs (Val.sub a b))) : DV α) := by
+  rw [callAt_fn _ _ _ _ Gen.DenseOn.fn_iff _ rfl]
+  simp [runFn, Gen.DenseOn.fn_iff, exec, evalE, evalNeg, evalBin, isCmp, arith, isTimeLike, isValLike, getLoc, resolve,
+    List.lookup, callAt_builtin Gen.DenseOn.fns fuel k "abs" _ rfl, builtin, toVal]
+
+theorem gen_on_addition :
+    callAt Gen.DenseOn.fns fuel (k + 1) "addition" [.val a, .val b] = .ok (.val (Val.add a b) : DV α) := by
+  rw [callAt_fn _ _ _ _ Gen.DenseOn.fn_addition _ rfl]
+  simp [runFn, Gen.DenseOn.fn_addition, exec, evalE, evalBin, isCmp, arith, isTimeLike, isValLike, getLoc, List.lookup, toVal]
+
+theorem gen_on_subtraction :
+    callAt Gen.DenseOn.fns fuel (k + 1) "subtraction" [.val a, .val b] = .ok (.val (Val.sub a b) : DV α) := by
+  rw [callAt_fn _ _ _ _ Gen.DenseOn.fn_subtraction _ rfl]
+  simp [runFn, Gen.DenseOn.fn_subtraction, exec, evalE, evalBin, isCmp, arith, isTimeLike, isValLike, getLoc, List.lookup,
+    toVal]
+
+theorem gen_on_multiplication :
+    callAt Gen.DenseOn.fns fuel (k + 1) "multiplication" [.val a, .val b] = .ok (.val (Val.mul a b) : DV α) := by
+  rw [callAt_fn _ _ _ _ Gen.DenseOn.fn_multiplication _ rfl]
+  simp [runFn, Gen.DenseOn.fn_multiplication, exec, evalE, evalBin, isCmp, arith, isTimeLike, isValLike, getLoc,
+    List.lookup, toVal]
+
+theorem gen_on_division :
+    callAt Gen.DenseOn.fns fuel (k + 1) "division" [.val a, .val b] = .ok (.val (Val.div a b) : DV α) := by
+  rw [callAt_fn _ _ _ _ Gen.DenseOn.fn_division _ rfl]
+  simp [runFn, Gen.DenseOn.fn_division, exec, evalE, evalBin, isCmp, arith, isTimeLike, isValLike, getLoc, resolve,
+    List.lookup, callAt_builtin Gen.DenseOn.fns fuel k "float" _ rfl, builtin, toVal]
+
+theorem gen_on_power :
+    callAt Gen.DenseOn.fns fuel (k + 1) "power" [.val a, .val b] = .ok (.val (Val.pow a b) : DV α) := by
+  rw [callAt_fn _ _ _ _ Gen.DenseOn.fn_power _ rfl]
+  simp [runFn, Gen.DenseOn.fn_power, exec, evalE, getLoc, resolve, List.lookup,
+    callAt_builtin Gen.DenseOn.fns fuel k "math.pow" _ rfl, builtin, toVal]
+
+theorem gen_on_log :
+    callAt Gen.DenseOn.fns fuel (k + 1) "log" [.val a, .val b] = .ok (.val (Val.log a b) : DV α) := by
+  rw [callAt_fn _ _ _ _ Gen.DenseOn.fn_log _ rfl]
+  simp [runFn, Gen.DenseOn.fn_log, exec, evalE, getLoc, resolve, List.lookup,
+    callAt_builtin Gen.DenseOn.fns fuel k "math.log" _ rfl, builtin, toVal]
+
+theorem gen_on_split :
+    callAt Gen.DenseOn.fns fuel (k + 1) "split" [.val a, .val b] = .ok (encPair (a, b) : DV α) := by
+  rw [callAt_fn _ _ _ _ Gen.DenseOn.fn_split _ rfl]
+  simp [runFn, Gen.DenseOn.fn_split, exec, evalE, getLoc, List.lookup, mkList2, encPair]
+
+end methods
+
+/-- the name of the method the operation classes hand to `intersection` for a point-wise binary operator -/
+def GOnInter.binMethodName : Bin → Option String
+  | .add => some "addition"
+  | .sub => some "subtraction"
+  | .mul => some "multiplication"
+  | .div => some "division"
+  | .pow => some "power"
+  | .log => some "log"
+  | .and => some "conjunction"
+  | .or => some "disjunction"
+  | .implies => some "implication"
+  | .iff => some "iff"
+  | .xor => some "xor"
+  | _ => none
+
+theorem gen_on_binMethod (fuel k : Nat) (op : Bin) (name : String) (h : GOnInter.binMethodName op = some name) (a b : α) :
+    callAt Gen.DenseOn.fns fuel (k + 1) name [.val a, .val b] = .ok (.val (binMethod op a b) : DV α) := by
+  cases op <;> simp [GOnInter.binMethodName] at h <;> subst h
+  · exact gen_on_addition fuel k a b
+  · exact gen_on_subtraction fuel k a b
+  · exact gen_on_multiplication fuel k a b
+  · exact gen_on_division fuel k a b
+  · exact gen_on_power fuel k a b
+  · exact gen_on_log fuel k a b
+  · exact gen_on_conjunction fuel k a b
+  · exact gen_on_disjunction fuel k a b
+  · exact gen_on_implication fuel k a b
+  · exact gen_on_iff fuel k a b
+  · exact gen_on_xor fuel k a b
+
+/-! ### `intersection` with the methods on values and with `split` -/
+
+theorem GOnInter.toPayload_val (x : α) : toPayload (DV.val x : DV α) = .ok (.val x) := rfl
+
+theorem GOnInter.cmpDV_ne_val (x y : α) : cmpDV .ne (DV.val x : DV α) (.val y) = .ok (vne x y) := by
+  simp [cmpDV, isTimeLike, isValLike, toVal, cmpVal]
+
+theorem GOnInter.toPayload_encPair (x : α × α) : toPayload (encPair x : DV α) = .ok (encPair x) := rfl
+
+theorem GOnInter.cmpDV_ne_encPair (x y : α × α) : cmpDV .ne (encPair x : DV α) (encPair y) = .ok (pairNe x y) := by
+  simp [cmpDV, encPair, pairNe]
+
+/-- `intersection(l, r, m)` for a method `m` on values (`conjunction`, `subtraction`, …): `_append` compares with `!=`. -/
+theorem gen_on_inter_val (fuel k : Nat) (m : String) (f : α → α → α)
+    (hm : ∀ a b, callAt Gen.DenseOn.fns fuel (k + 1) m [.val a, .val b] = .ok (.val (f a b) : DV α))
+    (l r : ASig α) (h : l.length + r.length < fuel) :
+    callAt Gen.DenseOn.fns fuel (k + 2) "intersection" [encSig l, encSig r, .fn m] =
+      GOnInter.encRes (fun x => DV.val x) (interOn f vne l r) :=
+  gen_on_intersection' fuel k (fun x => DV.val x) f vne m hm toPayload_val cmpDV_ne_val l r h
+
+/-- `intersection(l, r, split)` (the since / until classes) -/
+theorem gen_on_inter_split (fuel k : Nat) (l r : ASig α) (h : l.length + r.length < fuel) :
+    callAt Gen.DenseOn.fns fuel (k + 2) "intersection" [encSig l, encSig r, .fn "split"] =
+      GOnInter.encRes encPair (interOn (fun a b => (a, b)) pairNe l r) :=
+  gen_on_intersection' fuel k encPair (fun a b => (a, b)) pairNe "split" (gen_on_split fuel k)
+    toPayload_encPair cmpDV_ne_encPair l r h
+
+end Rtamt.Py.DnOn
